@@ -154,6 +154,29 @@ func checkAccept(c PCfg) (msg string, bad bool, accepted bool, skipped bool) {
 	if err == nil && p == nil {
 		return "NewParser returned nil, nil", true, false, false
 	}
+	if err == nil {
+		// a parser of an accepted configuration is put to use: a short text
+		// with repeats is written (in pieces if the buffer is small) and
+		// parsed, with and without the flag; nothing may panic
+		func() {
+			defer func() { panicked = recover() }()
+			text := []byte("abcabcabcabc abcabc\x00\x00\x00\x00\x00\x00 the quick brown fox, the quick brown fox")
+			var blk lz.Block
+			for round, pos := 0, 0; round < 40 && pos < len(text); round++ {
+				n, _ := p.Write(text[pos:])
+				pos += n
+				for k := 0; k < 100; k++ {
+					if _, err := p.Parse(&blk, k&1); err != nil {
+						break
+					}
+				}
+				p.Shrink()
+			}
+		}()
+		if panicked != nil {
+			return fmt.Sprintf("the configuration is accepted (Verify of the defaults-completed configuration and NewParser succeed), the parser panics in use: %v", panicked), true, true, false
+		}
+	}
 	return "", false, err == nil, false
 }
 
